@@ -59,6 +59,17 @@ def constants():
     t += "/-- the `_parse_key` flags of each reader, as source text: (function, x_only, compressed, musig_allowed) -/\n"
     t += "def KEY_FLAGS : List (String × String × String × String) := [" + ", ".join(
         "(" + ", ".join(_s(x) for x in (n,) + _key_flags(n)) + ")" for n in _KEY_PARSERS) + "]\n"
+    m = re.fullmatch(r"\[0-9\]\{1,(\d+)\}", D._THRESHOLD.pattern)
+    if not m:
+        raise ValueError(f"descriptors._THRESHOLD: pattern {D._THRESHOLD.pattern!r} is not [0-9]{{1,N}}")
+    t += "/-- `_THRESHOLD`: a threshold is 1 to THRESHOLD_MAX_DIGITS decimal digits -/\n"
+    t += f"def THRESHOLD_MAX_DIGITS : Nat := {int(m.group(1))}\n"
+    import sys
+    lim = sys.get_int_max_str_digits()
+    if lim <= 0:
+        raise ValueError("the interpreter's int/str digit limit is disabled: the model assumes CPython's default")
+    t += "/-- `sys.get_int_max_str_digits()`: `int(text)` raises ValueError on more decimal digits than this -/\n"
+    t += f"def INT_MAX_STR_DIGITS : Nat := {int(lim)}\n"
     t += f"def MAX_TREE_DEPTH : Nat := {int(D.MAX_TREE_DEPTH)}\n"
     t += f"def MAX_MULTI_A_KEYS : Nat := {int(D._MAX_MULTI_A_KEYS)}\n"
     t += f"def HARDENED_OFFSET : Nat := {int(D._HARDENED_OFFSET)}\n"
